@@ -160,6 +160,10 @@ func (tl *store) Resolve(id did.DID, resolveMetadata *resolver.ResolveMetadata) 
 				// We're trying to resolve the latest, it should not return an older (active) version when deactivated
 				return resolver.ErrDeactivated
 			}
+			if metadata.Deactivated && deactivatedAtResolveTime(metadata, resolveMetadata) {
+				// The version in force at the requested time is the deactivation: an older (active) version must not be returned
+				return resolver.ErrDeactivated
+			}
 			if matches(metadata, resolveMetadata) {
 				mdTmp := metadata.asVDRMetadata()
 				returnMetadata = &mdTmp
@@ -330,6 +334,16 @@ func matches(metadata documentMetadata, resolveMetadata *resolver.ResolveMetadat
 	}
 
 	return true
+}
+
+// deactivatedAtResolveTime tells whether the given (deactivated) version is the one that was in force at the requested resolve time,
+// for a request that selects by time only and does not allow deactivated documents.
+func deactivatedAtResolveTime(metadata documentMetadata, resolveMetadata *resolver.ResolveMetadata) bool {
+	if resolveMetadata == nil || resolveMetadata.AllowDeactivated || resolveMetadata.ResolveTime == nil ||
+		resolveMetadata.Hash != nil || resolveMetadata.SourceTransaction != nil {
+		return false
+	}
+	return !metadata.Updated.After(*resolveMetadata.ResolveTime) && !metadata.Created.After(*resolveMetadata.ResolveTime)
 }
 
 // latestNonDeactivatedRequested is a combination of checks on the resolveMetadata when a deactivated document is resolved
